@@ -209,7 +209,7 @@ func TestC02(t *testing.T) {
 func testC02Twins(t *testing.T) {
 	col := collector("C02", ruleC02)
 	backends := []string{run.Bbolt, run.Bbolt, run.BadgerMem}
-	check(t, "C02", cases(3000, 80000), ev.Scale(22, 32), func(rt *rapid.T) {
+	check(t, "C02", cases(3000, 120000), ev.Scale(22, 32), func(rt *rapid.T) {
 		backend := rapid.SampledFrom(backends).Draw(rt, "backend")
 		p := c02Profile()
 		s, err := c02Session(backend)
@@ -299,11 +299,13 @@ func testC02Twins(t *testing.T) {
 						env := p.Crit
 						env.Hot = b.IndexNames()
 						env.Values = nil
+						env.ValuesOf = map[string][]interface{}{}
 						if a := s.M.Colls["A"]; a != nil {
 							for _, id := range a.Ids() {
 								for _, f := range gen.LeafFields {
 									if v, ok := model.Lookup(a.Docs[id], f); ok {
 										env.Values = append(env.Values, v)
+										env.ValuesOf[f] = append(env.ValuesOf[f], v)
 									}
 								}
 								if len(env.Values) > 60 {
